@@ -10,7 +10,7 @@ import (
 
 func init() {
 	register(&propDef{
-		ID: "C03", Level: "other", Run: runC03,
+		ID: "C03", Level: "other", Run: withShared(runC03, share{"C07", runC07, ruleIs("no-hidden-state")}),
 		Explanation: "Decides that the constant tables the hand score is built from are well-formed (necessary for any total order to come out right): every ranking table shipped in package combination is a permutation of all declared categories; the standard and short-deck tables are the poker order of the property; each category's score span (CombinationLevel) exceeds the largest in-category score the scoring code can produce, computed from the radix and calibration constants found in CalculatePowerScore and the rank table; the symbol table is total, injective and not cross-wired; the multiples ladder in CalculatePower tests the stronger pattern first. Every pattern detector scans its whole input, and the slice sorted by descending rank is, unchanged, what detectors, grouping and result see. Does NOT decide category detection or kicker weighting on the 2.6M hands (values).",
 		Trusted:     commonTrusted,
 		Assumptions: []string{"category constants and the two exported ranking tables are API and resolved by name", "five-card hands: at most 5 distinct ranks"},
@@ -248,6 +248,46 @@ func runC03(c *Ctx) {
 	runC03Elements(c)
 	runC03TablesReadOnly(c)
 	runC03AceLow(c)
+	runC03ScoreCases(c)
+}
+
+// runC03ScoreCases: inside a category the score is positional over ALL rank groups, which is what
+// makes every kicker count. Only the two straight categories are scored differently (by their top
+// card). A further special case (three of a kind by the set's rank alone, say) makes hands that
+// differ in a side card tie.
+func runC03ScoreCases(c *Ctx) {
+	p := c.P
+	const rule = "score-cases"
+	fn := p.Func("combination", "", "CalculatePowerScore")
+	if fn == nil {
+		c.undecided(rule, "combination.CalculatePowerScore", "-", "function not found")
+		return
+	}
+	cats := p.ConstsOfType("combination", "Combination")
+	name := map[int64]string{}
+	for _, k := range cats {
+		v, _ := cint(k.Val)
+		name[v] = strings.TrimPrefix(k.Name, "Combination")
+	}
+	s := newSumm(p, 0)
+	s.EngineAliases = false
+	paths, _ := s.Function(fn)
+	special := map[string]bool{}
+	for _, ps := range paths {
+		for _, cd := range ps.Conds {
+			v := cd.V
+			if v.K == KAtom && v.At.Op == "eq" && !v.Neg && len(v.At.A.T) == 1 && strings.HasSuffix(v.At.A.terms()[0], ".Combination") {
+				special[name[-v.At.A.C]] = true
+			}
+		}
+	}
+	var bad []string
+	for k := range special {
+		if !strings.Contains(k, "Straight") {
+			bad = append(bad, "category "+k+" is scored by a rule of its own instead of positionally over all its rank groups")
+		}
+	}
+	c.check(len(bad) == 0, rule, fnKey(fn), p.FnPos(fn), fmt.Sprintf("only the straight categories are scored apart (%v)", sortedSet(special)), "a category is scored without all of its kickers", uniq(bad, 2)...)
 }
 
 // runC03AceLow: in the straight detector the ace may stand in for a low card in the five-high
@@ -578,7 +618,21 @@ func runC03Detectors(c *Ctx) {
 				// neighbour walk: i := 1; i < len(coll); i++ comparing coll[i] with coll[i-1]
 				ci := analyseCounting(l)
 				if ci.OK && ci.Step == 1 && ci.Op == "<" {
-					if c1, ok := constInt(ci.Init); ok && c1 == 1 {
+					// starts at the second card (the first is the reference), or at 0/1 chosen before the
+					// loop (the ace of a wheel is skipped)
+					startOK := false
+					if c1, ok := constInt(ci.Init); ok && c1 >= 0 && c1 <= 1 {
+						startOK = true
+					}
+					if ph, ok := ci.Init.(*ssa.Phi); ok {
+						startOK = len(ph.Edges) > 0
+						for _, e := range ph.Edges {
+							if c1, ok := constInt(e); !ok || c1 < 0 || c1 > 1 {
+								startOK = false
+							}
+						}
+					}
+					if startOK {
 						if call, ok := ci.Bound.(*ssa.Call); ok {
 							if b, ok := call.Call.Value.(*ssa.Builtin); ok && b.Name() == "len" && call.Call.Args[0] == ssa.Value(fn.Params[0]) {
 								full = true
